@@ -540,6 +540,15 @@ MUTANTS += [
                (SU, "            index = max(0, len(value) - len(elements))", "            index = max(0, len(value) - len(elements) - 1)")]},
     {"name": "exact form stops reporting surplus elements", "rule": "LIST-FORMS",
      "edits": [(V_, "        if len(value) > len(elements):\n            for index in range(len(elements), len(value)):", "        if len(value) > len(elements) + 1:\n            for index in range(len(elements), len(value)):")]},
+    {"name": "neutral: surplus loop without the (redundant) length guard", "expect": "SILENT",
+     "edits": [(V_, "        if len(value) > len(elements):\n            for index in range(len(elements), len(value)):\n                result.add_error(ExtraElementValidationError(path, value, index))",
+                "        for index in range(len(elements), len(value)):\n            result.add_error(ExtraElementValidationError(path, value, index))")]},
+    {"name": "a declared max_len re-opens an exact element list", "rule": "LIST-FORMS",
+     "edits": [(V_, "        if len(value) > len(elements):\n            for index in range(len(elements), len(value)):\n                result.add_error(ExtraElementValidationError(path, value, index))",
+                "        allowed = len(elements)\n        if schema.props.max_len is not Nil:\n            allowed = max(allowed, schema.props.max_len)\n        for index in range(allowed, len(value)):\n            result.add_error(ExtraElementValidationError(path, value, index))")]},
+    {"name": "bounds compared on the rounded value when a precision is declared", "rule": "PRESENT",
+     "edits": [(V_, "        if schema.props.min is not Nil:\n            if value < schema.props.min:\n                result.add_error(MinValueValidationError(path, value, schema.props.min))\n\n        if schema.props.max is not Nil:\n            if value > schema.props.max:\n                result.add_error(MaxValueValidationError(path, value, schema.props.max))\n\n        return result\n\n    def visit_str",
+                "        comparable = value if schema.props.precision is Nil else round(value, schema.props.precision)\n        if schema.props.min is not Nil:\n            if comparable < schema.props.min:\n                result.add_error(MinValueValidationError(path, value, schema.props.min))\n\n        if schema.props.max is not Nil:\n            if comparable > schema.props.max:\n                result.add_error(MaxValueValidationError(path, value, schema.props.max))\n\n        return result\n\n    def visit_str")]},
     {"name": "head form reports surplus elements", "rule": "LIST-FORMS",
      "edits": [(V_, "            errors = self._validate_elements(path, value, elements[:-1], **kwargs)\n            return result.add_errors(errors)\n\n        # tail",
                 "            errors = self._validate_elements(path, value, elements[:-1], **kwargs)\n            result.add_errors(errors)\n            for index in range(len(elements) - 1, len(value)):\n                result.add_error(ExtraElementValidationError(path, value, index))\n            return result\n\n        # tail")]},
